@@ -38,6 +38,7 @@ func c15Stream(rng *vRNG, c detConfig, n int, level int) []detFrame {
 	kind := rng.Intn(5) // 0 static+noise 1 warming 2 cooling 3 stepping 4 extremes
 	bx, by := rng.Intn(c.W), rng.Intn(c.H)
 	pFFC, pReset := rng.PickInt(0, 2, 6), rng.PickInt(0, 0, 2)
+	pFuture, future := rng.PickInt(0, 0, 3), 0
 	for i := 0; i < n; i++ {
 		if rng.Intn(100) < pReset {
 			out = append(out, detFrame{Reset: true})
@@ -48,6 +49,18 @@ func c15Stream(rng *vRNG, c detConfig, n int, level int) []detFrame {
 		}
 		if rng.Intn(100) < pFFC {
 			last = t
+		}
+		// telemetry whose last-FFC time lies AHEAD of time-on (counter wrap, camera restart without a
+		// 'clear'): by the rule time-on - last-FFC < 10 s these are FFC frames; afterwards the
+		// telemetry goes straight to "more than 10 s ago"
+		if future > 0 {
+			future--
+			if future == 0 {
+				last = t - 11*time.Second - time.Duration(rng.Intn(5000))*time.Millisecond
+			}
+		} else if rng.Intn(100) < pFuture {
+			future = rng.Range(1, 4)
+			last = t + time.Duration(rng.Range(1, 30))*time.Second
 		}
 		for y := range scene {
 			for x := range scene[y] {
